@@ -90,6 +90,11 @@ func (s *Syncer[H]) networkHead(ctx context.Context) (H, bool, error) {
 			sbjHead.Height(),
 		)
 
+		// the subjective head might have moved on meanwhile, e.g. a concurrent Head caller sharing
+		// the same response has applied it first, making the head "known" for this one
+		if lclHead, err := s.localHead(ctx); err == nil && lclHead.Height() > sbjHead.Height() {
+			sbjHead = lclHead
+		}
 		return sbjHead, false, nil
 	}
 	// still check if even the newly requested head is not recent
